@@ -127,6 +127,7 @@ inline int run_main(const Options& o, const std::string& prop_id, const std::vec
   if (o.is_replay()) {
     ReplayFile rf;
     if (!read_replay(o.replay_file, rf)) { fprintf(stderr, "cannot read replay file %s\n", o.replay_file.c_str()); return 2; }
+    gen_version() = rf.version;
     for (auto& p : props) {
       if (p.name != rf.name) continue;
       int iso = (int)o.getl("isolate", p.isolate);
